@@ -252,8 +252,9 @@ class OnePort(Network, ImmittanceMixin):
 
         # This is for determining impedances
         if not isinstance(kind, str):
-            # AC
-            domain = kind
+            # AC, evaluate at s = j * omega
+            from .sym import j
+            domain = j * kind
         elif kind in ('super', 'time', 't'):
             domain = 't'
         elif kind in ('laplace', 'ivp', 's'):
